@@ -29,20 +29,20 @@ theorem named_resolve :
     documented domain of its column type, and the accepted column carries the
     typed value the text denotes. -/
 theorem field_accept_eq_spec (C : Ctx) (ty : ColType) (sp : ColSpec) (t : Text)
-    (h : Builtin.expectedOf ty = some sp) (hne : ty ≠ .named "EntrezGeneId") :
+    (h : Builtin.expectedOf ty = some sp) :
     sp.accept C false t = specBuild ⟨C.enums, C.H⟩ ty t :=
-  Builtin.field_accept C ty sp t h hne
+  Builtin.field_accept C ty sp t h
 
 theorem field_accept_iff_domain (C : Ctx) (ty : ColType) (sp : ColSpec) (t : Text)
-    (h : Builtin.expectedOf ty = some sp) (hne : ty ≠ .named "EntrezGeneId") :
+    (h : Builtin.expectedOf ty = some sp) :
     (sp.accept C false t).isSome = inDomain ⟨C.enums, C.H⟩ ty t := by
-  rw [field_accept_eq_spec C ty sp t h hne]; rfl
+  rw [field_accept_eq_spec C ty sp t h]; rfl
 
 /-- a field outside its domain is never exposed as a value -/
 theorem field_reject (C : Ctx) (ty : ColType) (sp : ColSpec) (t : Text)
-    (h : Builtin.expectedOf ty = some sp) (hne : ty ≠ .named "EntrezGeneId")
+    (h : Builtin.expectedOf ty = some sp)
     (hout : inDomain ⟨C.enums, C.H⟩ ty t = false) : sp.accept C false t = none := by
-  have := field_accept_iff_domain C ty sp t h hne
+  have := field_accept_iff_domain C ty sp t h
   rw [hout] at this
   cases hs : sp.accept C false t with
   | none => rfl
@@ -51,12 +51,12 @@ theorem field_reject (C : Ctx) (ty : ColType) (sp : ColSpec) (t : Text)
 /-- the class record resolved from the tables, for a class of the extended table -/
 theorem accept_of_resolved (C : Ctx) (cls : String) (sp : ColSpec) (ty : ColType) (t : Text)
     (hr : (resolveSpec C.tbl cls).map ColSpec.erase = Builtin.expectedOf ty)
-    (hs : resolveSpec C.tbl cls = some sp) (hne : ty ≠ .named "EntrezGeneId") :
+    (hs : resolveSpec C.tbl cls = some sp) :
     sp.accept C false t = specBuild ⟨C.enums, C.H⟩ ty t := by
   rw [hs] at hr
   simp at hr
   rw [← Builtin.accept_erase]
-  exact field_accept_eq_spec C ty sp.erase t hr.symm hne
+  exact field_accept_eq_spec C ty sp.erase t hr.symm
 
 /-! Non-vacuity: concrete column types meet the hypotheses, and the theorem
     decides concrete texts both ways. -/
